@@ -105,6 +105,21 @@ def run_path(eng, pre, opcode, block_n=None, addr=0x1000, sym_addr=False, known=
         isa.execute(text, {k: (T(x), spec) for k, (x, spec) in eng.placeholders.items()}, imem_names(),
                     st, T(at), length, block_limit=block_n)
     except isa.NotSpecified as e:
+        if branch_check:
+            # C05 does not need the documented semantics: whatever the decoder accepts and the IL
+            # does, the reported branch facts must agree with the PC reached
+            try:
+                ev = emu.execute_instruction(a)
+            except core.EngineSignal:
+                raise
+            except BaseException as e2:  # noqa: BLE001
+                eng.prove("no-exception", z3.BoolVal(False), detail=f"{text}: {type(e2).__name__}: {e2}")
+                return PathOutcome("exception", exc=type(e2).__name__)
+
+            class _NoSpec:
+                defined, taken = [], None
+            _branch_obligations(eng, ev, _NoSpec, T(at), length, T(emu.regs.get(RN.PC)), text, conditional=False)
+            return PathOutcome("branch-facts-only", text=text, detail=str(e))
         return PathOutcome("not-specified", text=text, detail=str(e))
     defined = z3.BoolVal(True)
     if st.defined and not branch_check:
@@ -225,7 +240,7 @@ def run_path(eng, pre, opcode, block_n=None, addr=0x1000, sym_addr=False, known=
     return res
 
 
-def _branch_obligations(eng, ev, st, at, length, pc_final, text):
+def _branch_obligations(eng, ev, st, at, length, pc_final, text, conditional=True):
     """C05: static branch facts (InstructionInfo filled by the real analyze()) vs the PC the
     real IL evaluation reached."""
     from binaryninja.enums import BranchType as BT
@@ -265,7 +280,7 @@ def _branch_obligations(eng, ev, st, at, length, pc_final, text):
         eng.prove("unconditional-target", pc_final == t20(targets[BT.UnconditionalBranch][0]), detail=det)
     if BT.CallDestination in targets:
         eng.prove("call-target", pc_final == t20(targets[BT.CallDestination][0]), detail=det)
-    if BT.TrueBranch in targets or BT.FalseBranch in targets:
+    if (BT.TrueBranch in targets or BT.FalseBranch in targets) and conditional:
         if taken is None:
             eng.prove("conditional-has-condition", z3.BoolVal(False), detail=det)
         else:
